@@ -330,12 +330,12 @@ func tbInvalidates(re *ast.RuleEntry) bool {
 // Template sets (the *programs* dimension is a curated family; see DESIGN §4).
 var tbSets = map[string][]string{
 	"json":    {"j_basic"},
-	"memo":    {"b_basic", "b_toplevel", "b_slice_sel", "b_slice", "b_map", "b_nested", "b_short", "b_shared", "b_forget", "b_ptrswap", "b_forgetcall", "b_chain", "b_failshared"},
+	"memo":    {"b_basic", "b_toplevel", "b_slice_sel", "b_slice", "b_map", "b_nested", "b_short", "b_shared", "b_forget", "b_ptrswap", "b_forgetcall", "b_chain", "b_failshared", "b_elemfield"},
 	"control": {"b_retract", "b_fail", "b_nilptr", "b_actfail"},
 	"values":  {"b_compound", "b_args", "b_float", "b_string"},
 	"reuse":   {"b_unread", "b_retract", "b_basic"},
 	"reuseq":  {"b_unread", "b_basic"},
-	"dbg":     {"b_forget"},
+	"dbg":     {"b_elemfield"},
 	"fetch":   {"b_basic", "b_short", "b_map", "b_slice", "b_nested", "b_shared"},
 	"clone":   {"b_argshare", "b_shared", "b_short", "b_retract", "b_map", "b_slice_sel", "b_forgetcall", "two"},
 }
